@@ -15,14 +15,23 @@ package simrt
 import "runtime"
 
 const (
-	MaxTasks    = 16
+	MaxTasks    = 64
 	TapeCap     = 1 << 20
 	MaxSites    = 1 << 14
 	MaxCounters = 256
 	MaxViol     = 64
 	TraceCap    = 4096
 	pairSetCap  = 1 << 18 // open addressing, power of two
+	MaxTimers   = 1024
 )
+
+type vtimer struct {
+	at     int64
+	seq    int64
+	period int64
+	live   bool
+	fire   func()
+}
 
 // task states
 const (
@@ -69,9 +78,18 @@ var (
 	blockedReal  [MaxTasks]bool
 	nBlockedReal int
 	goids        [MaxTasks]uint64
+	parentOf     [MaxTasks]int // task that started this one (-1: a task of the world)
 	realDeadlock bool
 	nInitial     int  // tasks of the world (the rest were started by the library's go statements)
 	leaked       bool // the run ended with library goroutines still blocked
+
+	// virtual timers of the library under test (package simtime): fired when
+	// the virtual clock reaches them
+	timers     [MaxTimers]vtimer
+	nTimerLive int
+	timerSeq   int64
+	opCount    int64 // Progress() calls of this run (time-passing draws)
+	timeMode   int   // how much virtual time passes between operations (per run)
 
 	steps    int64
 	stepBase int64 // steps at the last Progress() call: the cap is per operation
@@ -172,8 +190,17 @@ func Reset(seed uint64, explicitTape []uint64) {
 	for i := 0; i < MaxTasks; i++ {
 		blockedReal[i] = false
 		goids[i] = 0
+		parentOf[i] = -1
 	}
 	nBlockedReal = 0
+	for i := 0; i < MaxTimers; i++ {
+		timers[i] = vtimer{}
+	}
+	nTimerLive = 0
+	slotsExhausted = false
+	timerSeq = 0
+	opCount = 0
+	timeMode = int(mix(seed^0x74696d65) % 4)
 	realDeadlock = false
 	nInitial = 0
 	leaked = false
@@ -315,7 +342,7 @@ func TaskEnter(id int) {
 // arrives before the choice is made, not at a moment the Go scheduler picks.
 
 const (
-	blockSpins   = 400
+	blockSpins   = 40
 	settleRounds = 6
 )
 
@@ -368,7 +395,9 @@ func realBlock() {
 	blockedReal[b] = true
 	nBlockedReal++
 	count(cRealBlock)
-	next := pickAny(b)
+	// (nobody is excluded: b itself is not eligible while it is blocked, and
+	// if a virtual timer releases it during the clock jump it may be chosen)
+	next := pickAny(-1)
 	if next < 0 && worldDone() {
 		endWithLeftovers()
 		return
@@ -480,13 +509,39 @@ func arrive() {
 var SpawnHook func(id int, fn func())
 
 var cGoTask = RegisterCounter("task_started_by_the_library")
+var cSlotUse = RegisterCounter("task_slot_assigned")
+
+var slotsExhausted bool
+
+// SlotsExhausted reports that the library had more live goroutines than the
+// simulator has task slots (the run is not a simulation any more).
+//
+//go:norace
+func SlotsExhausted() bool { return slotsExhausted }
 
 // Go replaces the go statement in the rewritten sources: inside a simulation
 // the new goroutine becomes a task of the scheduler; outside it is a plain
 // goroutine.
 //
 //go:norace
-func Go(fn func()) {
+func Go(fn func()) { GoFrom(current, fn) }
+
+// Parent returns the task that started task id with a go statement (or whose
+// timer did), -1 for the tasks of the world.
+//
+//go:norace
+func Parent(id int) int {
+	if id < 0 || id >= MaxTasks {
+		return -1
+	}
+	return parentOf[id]
+}
+
+// GoFrom is Go with an explicit parent (timers: the task that set the timer,
+// not the one that happened to advance the clock).
+//
+//go:norace
+func GoFrom(parent int, fn func()) {
 	if !active || SpawnHook == nil {
 		go fn()
 		return
@@ -494,14 +549,29 @@ func Go(fn func()) {
 	if nBlockedReal > 0 {
 		arrive()
 	}
-	if ntasks >= MaxTasks {
-		// no task slot left: running the function to its end right here is one
-		// of the schedules the go statement allows
-		fn()
+	// a slot: a new one, or that of a goroutine of the library that has
+	// finished (a codec that starts four workers per call needs thousands of
+	// goroutines per run, a handful at a time)
+	id := -1
+	if ntasks < MaxTasks {
+		id = ntasks
+		ntasks++
+	} else {
+		for i := nInitial; i < ntasks; i++ {
+			if state[i] == tDone && !blockedReal[i] {
+				id = i
+				break
+			}
+		}
+	}
+	if id < 0 {
+		// more live goroutines than the simulator has slots for: a limit of the
+		// machinery, reported as such (never a verdict)
+		slotsExhausted = true
+		go fn()
 		return
 	}
-	id := ntasks
-	ntasks++
+	count(cSlotUse)
 	state[id] = tRunnable
 	idle[id] = false
 	waitKey[id] = 0
@@ -509,6 +579,7 @@ func Go(fn func()) {
 	lastSite[id] = -1
 	prio[id] = 5 - id // below the initial tasks under PCT
 	blockedReal[id] = false
+	parentOf[id] = parent
 	count(cGoTask)
 	SpawnHook(id, fn)
 }
@@ -561,6 +632,13 @@ func WaitEnd() {
 //
 //go:norace
 func TaskExit(id int) {
+	// a goroutine whose real blocking operation has returned and that then
+	// runs to its end without passing a yield point (a worker leaving its
+	// `for range ch` loop when the channel is closed) arrives here: it parks
+	// like any other task before it may touch the schedule
+	if nBlockedReal > 0 {
+		arrive()
+	}
 	state[id] = tDone
 	idle[id] = false
 	clearIdleAll()
@@ -640,6 +718,9 @@ func pickAny(me int) int { return pickAnyD(me, 0) }
 func pickAnyD(me int, selfDeadline int64) int {
 	settle()
 	for {
+		if nTimerLive > 0 && fireDue() {
+			settle()
+		}
 		var cand [MaxTasks]int
 		n := 0
 		for i := 0; i < ntasks; i++ {
@@ -660,13 +741,22 @@ func pickAnyD(me int, selfDeadline int64) int {
 			}
 			return cand[Choose(n)]
 		}
-		// nobody eligible: jump the clock to the next timer
+		// nobody eligible: jump the clock to the next event (a task's deadline
+		// or a virtual timer of the library)
 		var min int64 = -1
 		for i := 0; i < ntasks; i++ {
 			if i != me && state[i] == tRunnable && idle[i] && wakeAt[i] > now {
 				if min < 0 || wakeAt[i] < min {
 					min = wakeAt[i]
 				}
+			}
+		}
+		// once every task of the world has finished the clock stops: timers and
+		// sleeping goroutines the library left behind (a ticker, a background
+		// refresher) must not keep the run alive
+		if nTimerLive > 0 && !(selfDeadline == 0 && worldDoneExcept(me)) {
+			if t := nextTimerAt(); t >= 0 && (min < 0 || t < min) {
+				min = t
 			}
 		}
 		if selfDeadline > 0 && (min < 0 || selfDeadline <= min) {
@@ -678,9 +768,172 @@ func pickAnyD(me int, selfDeadline int64) int {
 		if min < 0 {
 			return -1
 		}
-		now = min
+		if selfDeadline == 0 && worldDoneExcept(me) {
+			return -1
+		}
+		if min > now {
+			now = min
+		}
 	}
 }
+
+// worldDoneExcept: every task of the world other than `me` has finished and
+// `me` is not a task of the world that still runs (me is done, or was started
+// by the library).
+//
+//go:norace
+func worldDoneExcept(me int) bool {
+	for i := 0; i < nInitial && i < ntasks; i++ {
+		if state[i] != tDone {
+			return false
+		}
+	}
+	return true
+}
+
+// ---- virtual timers -------------------------------------------------------
+
+// AddTimer registers a timer that fires (calls fire) when the virtual clock
+// reaches now+d; period > 0 re-arms it. fire must not block and must not call
+// into the scheduler except through Go. Returns -1 when the table is full or
+// no simulation is active.
+//
+//go:norace
+func AddTimer(d, period int64, fire func()) int {
+	if !active {
+		return -1
+	}
+	if d < 0 {
+		d = 0
+	}
+	for i := 0; i < MaxTimers; i++ {
+		if !timers[i].live {
+			timerSeq++
+			timers[i] = vtimer{at: now + d, seq: timerSeq, period: period, live: true, fire: fire}
+			nTimerLive++
+			count(cTimerSet)
+			return i
+		}
+	}
+	return -1
+}
+
+// StopTimer cancels a timer; it reports whether the timer was still pending.
+//
+//go:norace
+func StopTimer(id int, seq int64) bool {
+	if id < 0 || id >= MaxTimers || !timers[id].live || (seq != 0 && timers[id].seq != seq) {
+		return false
+	}
+	timers[id].live = false
+	timers[id].fire = nil
+	nTimerLive--
+	return true
+}
+
+// TimerSeq returns the generation of a timer slot (so that a Stop after the
+// slot was re-used does not cancel somebody else's timer).
+//
+//go:norace
+func TimerSeq(id int) int64 {
+	if id < 0 || id >= MaxTimers {
+		return 0
+	}
+	return timers[id].seq
+}
+
+//go:norace
+func nextTimerAt() int64 {
+	var min int64 = -1
+	for i := 0; i < MaxTimers; i++ {
+		if timers[i].live && (min < 0 || timers[i].at < min) {
+			min = timers[i].at
+		}
+	}
+	return min
+}
+
+// fireDue fires every timer whose time has come, in (time, creation) order.
+//
+//go:norace
+func fireDue() bool {
+	fired := false
+	for {
+		best := -1
+		for i := 0; i < MaxTimers; i++ {
+			if timers[i].live && timers[i].at <= now {
+				if best < 0 || timers[i].at < timers[best].at || (timers[i].at == timers[best].at && timers[i].seq < timers[best].seq) {
+					best = i
+				}
+			}
+		}
+		if best < 0 {
+			return fired
+		}
+		f := timers[best].fire
+		if timers[best].period > 0 {
+			timers[best].at += timers[best].period
+			if timers[best].at <= now {
+				// a ticker drops ticks for slow receivers
+				timers[best].at = now + timers[best].period
+			}
+		} else {
+			timers[best].live = false
+			timers[best].fire = nil
+			nTimerLive--
+		}
+		count(cTimerFired)
+		fired = true
+		if f != nil {
+			f()
+		}
+	}
+}
+
+var (
+	cTimerSet   = RegisterCounter("library_timer_set")
+	cTimerFired = RegisterCounter("library_timer_fired")
+	cTimePassed = RegisterCounter("time_passed_between_operations")
+)
+
+// OpTimeDraw is called once per operation of a world: it returns how much
+// virtual time (ns) should pass before the operation. A function of the seed
+// and the operation count only (no tape draw); one run in four lets no time
+// pass at all, the others mostly none, sometimes milliseconds ... days.
+//
+//go:norace
+func OpTimeDraw() int64 {
+	opCount++
+	if !active || timeMode == 0 {
+		return 0
+	}
+	v := mix(seedVal ^ uint64(opCount)*0x9e3779b97f4a7c15 ^ 0x6f70)
+	if v%6 != 0 {
+		return 0
+	}
+	small := [...]int64{1e3, 1e6, 20e6, 1e9, 3e9}
+	large := [...]int64{61e9, 601e9, 3601e9, 7 * 3600e9, 25 * 3600e9, 31 * 24 * 3600e9}
+	k := (v >> 8)
+	switch timeMode {
+	case 1:
+		return small[k%uint64(len(small))]
+	case 2:
+		return large[k%uint64(len(large))]
+	default:
+		if k%2 == 0 {
+			return small[(k>>1)%uint64(len(small))]
+		}
+		return large[(k>>1)%uint64(len(large))]
+	}
+}
+
+//go:norace
+func CountTimePassed() { count(cTimePassed) }
+
+// ForcedRunToBlock reports whether the world asked for the sequential policy.
+//
+//go:norace
+func ForcedRunToBlock() bool { return forceRTB }
 
 //go:norace
 func armed(site int) bool {
